@@ -24,6 +24,13 @@ class InvalidNameError(ValueError):
     def __init__(self, name: str, reason: str):
         message: str = f"Cannot split the following name `{name}` into parts: {reason}"
         super().__init__(message)
+        self._name = name
+        self._reason = reason
+
+    def __reduce__(self):
+        # Allows to (deep)copy and pickle the exception. The default implementation fails,
+        #   as it calls the constructor with `self.args` (i.e., the message only).
+        return self.__class__, (self._name, self._reason)
 
 
 class _NameTransformerMiddleware(BlockMiddleware, abc.ABC):
